@@ -335,18 +335,27 @@ def bal_shape(n):
     nl = (n - 1) // 2
     return (bal_shape(nl), bal_shape(n - 1 - nl))
 
-def avl_huge_state_case(rng, cid, n=66000, lay='u32u32'):
+def avl_huge_state_case(rng, cid, n=66000, lay='u32u32', short=False):
     """a 32-bit tree holding more than 2^16 entries (slot numbers, size and links wider than 16 bits),
     built as bytes; a few operations of every kind at the bottom, middle and top of the key range"""
     raw, nn, cap = avl_state_bytes(rng, 32, lay, bal_shape(n), 3, 4)
     top = 2 * n
     mid = 2 * (n // 2)
-    ops = ['len', 'low', 'get %d' % top, 'has %d' % (top + 1), 'ins %d 5' % (top + 1), 'ins %d 6' % (mid + 1), 'ins 1 7',
-           'ins %d 8' % mid, 'rem %d' % mid, 'rem 2', 'rem %d' % top, 'gmut %d 9' % (mid + 2), 'low', 'len',
+    # the buffer is extended while recycled slots are outstanding (3 recycled, 4 never used): the growth branch
+    # threads the never-used and the new slots and moves the cursor past 2^16
+    ops = ['len', 'ext 3', 'capq', 'ins %d 5' % (top + 1), 'capq', 'ins 1 7', 'rem %d' % mid, 'rem %d' % top,
            'ins %d 1' % (top + 5), 'ins %d 1' % (top + 7), 'ins %d 1' % (top + 9), 'ins %d 1' % (top + 11),
-           'ins %d 1' % (top + 13), 'ins %d 1' % (top + 15), 'full', 'len']
-    uni = sorted({1, 2, 3, 4, mid - 2, mid, mid + 1, mid + 2, top - 2, top, top + 1, top + 3, top + 5, top + 7, top + 9, top + 11, top + 13, top + 15})
-    return Case(cid, 'avl', {'bits': 32, 'lay': lay, 'raw': raw.hex(), 'mode': 'persistent'}, ops, {'stream': 'L', 'uni': uni})
+           'ins %d 1' % (top + 13), 'ins %d 1' % (top + 15), 'ins %d 1' % (top + 17), 'ins %d 1' % (top + 19),
+           'ins %d 1' % (top + 21), 'ins %d 1' % (top + 23), 'full', 'ins %d 1' % (top + 25), 'len',
+           'rem %d' % (top + 5), 'ins %d 2' % (top + 27), 'full', 'len',
+           # a second growth: the cursor left by the first one decides where threading starts
+           'rem %d' % (top + 7), 'ext 2', 'capq', 'ins %d 3' % (top + 29), 'ins %d 3' % (top + 31), 'ins %d 3' % (top + 33), 'full',
+           'ins %d 3' % (top + 35), 'len', 'get %d' % (mid + 2), 'get 4']
+    if short:
+        ops = ['len', 'low', 'get %d' % top, 'ins %d 5' % (top + 1), 'ins %d 6' % (mid + 1), 'ins %d 8' % mid, 'rem %d' % mid, 'rem 2',
+               'rem %d' % top, 'gmut %d 9' % (mid + 2), 'low', 'ins %d 1' % (top + 5), 'ins 1 7', 'full', 'len']
+    uni = sorted({1, 2, 3, 4, mid - 2, mid, mid + 1, mid + 2, top - 2, top, top + 1, top + 3} | {top + j for j in range(5, 37, 2)})
+    return Case(cid, 'avl', {'bits': 32, 'lay': lay, 'raw': raw.hex(), 'lite': 1, 'mode': 'persistent'}, ops, {'stream': 'L', 'uni': uni})
 
 def hash_huge_state_case(rng, cid, n=66000, vty='u32'):
     """a hash set holding more than 2^16 members, built as bytes"""
@@ -357,6 +366,15 @@ def hash_huge_state_case(rng, cid, n=66000, vty='u32'):
            'size', 'rem 100', 'rem %d' % (100 + n // 2), 'rem 6', 'has 100', 'size', 'ins 7', 'ins 8', 'ins 9', 'ins 10', 'ins 11',
            'ins 12', 'ins 13', 'full', 'size', 'rem %d' % (99 + n), 'ins 14', 'has 14', 'size']
     return Case(cid, 'hash', {'vty': vty, 'raw': raw.hex(), 'lite': 1, 'mode': 'persistent'}, ops, {'stream': 'L'})
+
+def hash_huge_iter_case(rng, cid, n=66000, vty='u32'):
+    """iteration over a set with more than 2^16 buckets, judged on the implementation alone against the known members"""
+    cap = n + 6
+    values = list(range(100, 100 + n))
+    raw = hash_state_bytes(rng, vty, cap, values, 2)
+    ops = ['itercount', 'size', 'rem 100', 'rem %d' % (99 + n), 'itercount', 'ins 7', 'ins 8', 'ins 9', 'itercount', 'size']
+    return Case(cid, 'hash', {'vty': vty, 'raw': raw.hex(), 'lite': 1, 'cap': cap, 'mode': 'persistent'}, ops,
+                {'stream': 'L', 'values': values, 'impl_only': True})
 
 def avl_session_case(rng, cid, bits=None, lay=None):
     """a tree initialised with a capacity smaller than the record count of its buffer and used through
